@@ -66,6 +66,7 @@ func H16Expand() {
 	file := ndStringIn("file", fl, "ab./")
 	// what LoadArchiveFiles guarantees (H16Names): clean, relative, no '..' component
 	vAssume(!strings.HasPrefix(file, "/") && !strings.HasSuffix(file, "/") && !strings.Contains(file, "//"))
+	vAssume(!strings.HasPrefix(file, "..")) // the loader refuses every name that starts with ".." (also "..a")
 	for _, seg := range strings.Split(file, "/") {
 		vAssume(seg != ".." && seg != ".")
 	}
